@@ -315,7 +315,14 @@ func c06Specs(tier string) []*XSpec {
 		d = 6
 		al = append(al, Op{K: "set", V: "x300", Key: "b"}, Op{K: "del", Key: "b"}, Op{K: "incr", Key: "a"}, Op{K: "merge"})
 	}
-	return []*XSpec{{Property: "C06", Name: cfgCrash().Name, Cfg: cfgCrash(), Alphabet: al, Depth: d, Keys: keys, ExecNode: c06ExecNode}}
+	// three keys, 4 records per file, hint splits of 2 items: a split rotates and is dumped inside a chunk
+	c3 := cfgK1s()
+	c3.Name = "crash-f1024-s2-3keys"
+	c3.BufIOCap = 256
+	keys3 := []string{"a", "b", "c"}
+	al3 := append(perKey(keys3, Op{K: "set", V: "s"}), Op{K: "del", Key: "a"}, Op{K: "flush"}, Op{K: "dump"}, Op{K: "close"})
+	return []*XSpec{{Property: "C06", Name: cfgCrash().Name, Cfg: cfgCrash(), Alphabet: al, Depth: d, Keys: keys, ExecNode: c06ExecNode},
+		{Property: "C06", Name: c3.Name, Cfg: c3, Alphabet: al3, Depth: d - 1, Keys: keys3, ExecNode: c06ExecNode}}
 }
 
 func C06(job *Job, r *Report) {
